@@ -225,8 +225,8 @@ Definition quiet (i : N) (h : list op) : bool := forallb (fun o => negb (touches
 Definition is_next (i : N) (o : op) : bool := match o with Next j => j =? i | _ => false end.
 Definition count_next (i : N) (h : list op) : nat := List.length (filter (is_next i) h).
 
-Fixpoint answers (i : N) (h : list op) (obs : list obs) : list (option N) :=
-  match h, obs with
+Fixpoint answers (i : N) (h : list op) (obl : list obs) : list (option N) :=
+  match h, obl with
   | o :: r, ob :: r' =>
       if is_next i o then (match ob with OVal v => v | _ => None end) :: answers i r r' else answers i r r'
   | _, _ => []
@@ -296,8 +296,8 @@ Definition logged (o : op) : bool :=
   match o with Open _ _ _ | ROpen _ _ _ | Close _ => false | _ => true end.
 
 (* the log entries a history produces: one (goal index, observation) per logged step *)
-Fixpoint filter_log (kops : list (N * op)) (obs : list obs) : list (N * obs) :=
-  match kops, obs with
+Fixpoint filter_log (kops : list (N * op)) (obl : list obs) : list (N * obs) :=
+  match kops, obl with
   | (k, o) :: r, ob :: r' => if logged o then (k, ob) :: filter_log r r' else filter_log r r'
   | _, _ => []
   end.
